@@ -52,7 +52,7 @@ def gen_typed_case(rng):
 def gen_canon_case(rng):
     """string columns under a datatype whose lexical forms are canonicalised (xsd:integer / boolean / dateTime): the
     canonical form of a value must not depend on the other rows of the column"""
-    dt, vals = rng.choice([(mapcase.XSD + 'integer', ['0042', '1e3', '1500.0', '7', '12', '3.0', '+5', '10', '-0', '1E2']),
+    dt, vals = rng.choice([(mapcase.XSD + 'integer', ['0042', '1e3', '1500.0', '7', '12', '3.0', '+5', '10', '-0', '1E2', '3.7', '2.5']),
                            (mapcase.XSD + 'boolean', ['true', 'TRUE', 'False', '1', '0', 'T']),
                            (mapcase.XSD + 'dateTime', ['2020-01-01 10:00:00', '2020-01-01T10:00:00', '2021-05-05 00:00:00.5', '2020-01-01'])])
     n = rng.choice([2, 3, 4, 5])
@@ -63,6 +63,18 @@ def gen_canon_case(rng):
             for i, m in enumerate([tm('ref', 'c1'), rng.choice([tm('ref', 'c2'), tm('templ', '{c2}', 'iri', 'lit')])])]
     return {'cfg': {'nquads': False, 'mode': 'NO'}, 'sources': [src],
             'doc': [{'id': EX + 'tm/T', 'src': 'S0', 'nonasserted': False, 'subj': tm('templ', EX + 'r/{id}'), 'sjoins': [], 'classes': [], 'sgraphs': [], 'poms': poms}]}
+
+
+def gen_collation_case(rng):
+    """a database table whose text column compares coarser than string equality (COLLATE NOCASE; an untyped column holding 1 and 1.0 as text):
+    rows equal for the database but different as strings are different rows"""
+    words = rng.choice([['Madrid', 'MADRID', 'madrid', 'Lyon'], ['a', 'A', 'b', 'B'], ['x ', 'x', 'X', 'y']])
+    n = rng.choice([2, 3, 4, 6])
+    rows = [[rng.choice(words), rng.choice(words)] for _ in range(n)]
+    src = {'key': 'S0', 'kind': rng.choice(['sqltable', 'sqltable', 'sqlquery']), 'cols': ['city', 'c2'], 'rows': rows, 'types': ['TEXT COLLATE NOCASE', rng.choice(['TEXT COLLATE NOCASE', 'TEXT'])]}
+    poms = [{'preds': [tm('const', EX + 'p/name')], 'objs': [{'m': tm('ref', rng.choice(['city', 'c2'])), 'lang': None, 'dt': None, 'joins': []}], 'graphs': []}] if rng.random() < 0.6 else []
+    return {'cfg': {'nquads': False, 'mode': 'NO'}, 'sources': [src],
+            'doc': [{'id': EX + 'tm/T', 'src': 'S0', 'nonasserted': False, 'subj': tm('templ', EX + 'city/{city}'), 'sjoins': [], 'classes': [EX + 'class/City'], 'sgraphs': [], 'poms': poms}]}
 
 
 def typed_trigger(case):
@@ -102,10 +114,10 @@ def variants(rng, case):
 
 def run(ctx, res):
     res.rule = ('join-free mappings over (a) string tables (core generator, CSV) and (b) typed tables (INTEGER / REAL / BOOLEAN / NUMERIC / TEXT columns with NULLs in some rows) delivered as SQLite table, '
-                'SQLite query, JSON, Parquet, Feather, ORC; for every case the table is split at a random cut, and permuted with duplicated rows: result(whole) must equal result(part 1) + result(part 2) '
+                'SQLite query, JSON, Parquet, Feather, ORC, and (c) SQLite text columns with a case-insensitive collation; for every case the table is split at a random cut, and permuted with duplicated rows: result(whole) must equal result(part 1) + result(part 2) '
                 'and result(permuted + duplicated); typed cases are also compared with the Engine model (column coercion) and the Spec; distinct = distinct case; non-trivial = split with both parts non-empty')
     known = set(ctx.known)
-    cases = [gen_typed_case(ctx.rng) for _ in range(ctx.scale(60, 1500))] + [gen_canon_case(ctx.rng) for _ in range(ctx.scale(30, 600))]
+    cases = [gen_typed_case(ctx.rng) for _ in range(ctx.scale(60, 1500))] + [gen_canon_case(ctx.rng) for _ in range(ctx.scale(30, 600))] + [gen_collation_case(ctx.rng) for _ in range(ctx.scale(12, 200))]
     cases += [c for c in (mapcase.gen_core_case(ctx.rng, hard=ctx.rng.random() < 0.5, joins=False) for _ in range(ctx.scale(40, 1200))) if len(c['sources']) == 1]
     batch = family.Batch(ctx)
     whole = batch.run(cases)
